@@ -848,6 +848,8 @@ def check(run):
     close_terms(ck)
     check_real_log_density(run, A)
     check_factorised_matrix(run, A)
+    from .. import opt as _opt
+    _opt.check_derived_fields(run, A, ['pb_bss.distribution'])      # the cached factor / log-determinant cannot be set apart from the covariance (round 14, S250)
     # generic sesquilinear rule on every einsum of the density files
     n = 0
     for s in ein.enumerate_sites(A):
